@@ -16,6 +16,9 @@ CLAIMED = {
  "C04": ("§7 C04", "Every output the real Writers produce for the C01 alphabet is judged only by independent decoders (strict binary validator / text grammar parser + symbol context machine), and every integer codec is enumerated over 0..2^16 and all 2^k±2 with length-function/bytes agreement.",
          "Trusts refbin, reftext and refsym; ion-go's Reader is never consulted.",
          "exhaustive enumeration of writer inputs and codec arguments on the implementation, outputs validated by an independent reference decoder"),
+ "C07": ("§7 C07", "A hand catalogue of spec-invalid inputs in several contexts plus EVERY single truncation, deletion, duplication, insertion (24 characters) and substitution (11 byte values) at every position of every seed document in text and binary: whenever the independent reference rejects the edited input, a full traversal by the real Reader must end in an error that stays (five more Next calls, identical Err); edits that stay valid are compared value-by-value instead.",
+         "The references decide what is malformed (constructs the specification leaves open are never judged); pairs of edits and other seed documents are not covered.",
+         "exhaustive single-fault enumeration over every position of every seed input, replayed on the implementation against an independent validator"),
  "C08": ("§7 C08", "Bounded exhaustive exploration of navigation programs on the real text and binary Readers: every program that departs from the plain full traversal in at most d steps (skip, early step-out, refused calls, wrong/right accessors, calls past the end), combined with one spelling/encoding deviation, plus every program of bounded length over the 4-op alphabet on small documents; after every step all observations are compared with a reference cursor over the forest the same Reader produced in its own plain traversal.",
          "Differential oracle: value-decoding defects are C02/C03's concern; programs with more than d deviations and longer free programs are not covered.",
          "deviation-bounded enumeration of call sequences (navigation programs) on the implementation, lock-step with a reference cursor"),
